@@ -1715,3 +1715,10 @@ mutant("c18-compacted-once-list-not-stored-back", "C18", "C18-D7", "store.go",
        """		if len(eventsOnce) == 0 {
 			delete(e.eventsOnce, eventName)
 		}""")
+
+# ---------------------------------------------------------------- C15 (round 2)
+mutant("c15-backoff-reset-only-when-reconnecting", "C15", "C15-D4", "client_manager.go",
+       "	m.cleanup()\n	m.backoff.reset()\n", "	m.cleanup()\n")
+MUTANTS[-1]["then"] = ("		go m.reconnect(false)\n	}\n}", "		m.backoff.reset()\n		go m.reconnect(false)\n	}\n}")
+mutant("c15-volatile-enters-retry-queue", "C15", "C15-D4", "client_socket.go",
+       "	if s.config.Retries > 0 && !fromQueue && !volatile {", "	if s.config.Retries > 0 && !fromQueue {")
